@@ -1,6 +1,12 @@
 import Moyo.Model.Wire
 import Moyo.Model.HNF
 import Moyo.Model.NFSpec
+import Moyo.Model.Hall
+import Moyo.Generated.HallTable
+import Moyo.Generated.ArithTable
+import Moyo.Generated.MagTable
+import Moyo.Generated.WyckoffTable
+import Moyo.Generated.Constants
 /-
 Line-protocol driver for the executable model (`moyo_model`): one request per input line, one
 answer per output line.  Import-free (core Lean only) so it links as a native executable.
@@ -64,12 +70,56 @@ def cmdSnfCheck (args : List String) : String :=
     | _, _, _ => "bad-op"
   | _ => "bad-op"
 
+def hopToString (o : HOp) : String :=
+  intsToString (o.rot.toList ++ o.trans.toList ++ [if o.tr then 1 else 0])
+
+def hopsToString (os : List HOp) : String := " | ".intercalate (os.map hopToString)
+
+/-- `hall <symbol>` / `mhall <symbol>`: centering ; generators ; traverse ; primitive generators ; primitive traverse. -/
+def cmdHall (magnetic : Bool) (sym : String) : String :=
+  match (if magnetic then HallSymbol.newMagnetic sym else HallSymbol.new sym) with
+  | none => "none"
+  | some hs =>
+    match hs.traverse, hs.primitiveTraverse with
+    | some ops, some pops =>
+      s!"{hs.centering.toString} ; {hopsToString hs.generators} ; {hopsToString ops} ; {hopsToString hs.primitiveGenerators} ; {hopsToString pops}"
+    | _, _ => "none"
+
+open Moyo.Generated in
+/-- Rows of the regenerated tables, printed as the harness prints the running code's rows. -/
+def cmdEntry (kind : String) (arg : String) : String :=
+  match kind, arg.toNat? with
+  | "hallentry", some n =>
+    if n = 0 then "none" else
+    match hallTable[n - 1]? with
+    | none => "none"
+    | some e => s!"{e.hallNumber} {e.number} {e.arithmeticNumber} |{e.setting}|{e.hallSymbol}|{e.hmShort}|{e.hmFull}|{e.centering}"
+  | "magentry", some n =>
+    if n = 0 then "none" else
+    match magHallTable[n - 1]?, magTypeTable[n - 1]? with
+    | some h, some t => s!"{h.uniNumber} |{h.symbol}| {t.uniNumber} {t.litvinNumber} |{t.bnsNumber}|{t.ogNumber}| {t.number} {t.constructType}"
+    | _, _ => "none"
+  | "arithentry", some n =>
+    if n = 0 then "none" else
+    match arithTable[n - 1]? with
+    | none => "none"
+    | some e => s!"{e.arithmeticNumber} |{e.symbol}| {e.geometricClass} {e.bravaisClass}"
+  | _, _ => "bad-op"
+
 def step (line : String) : String :=
+  let cs := (line.toList.reverse.dropWhile (fun c => c = '\n' || c = '\r')).reverse
+  if "hall ".toList.isPrefixOf cs then cmdHall false (String.ofList (cs.drop 5)) else
+  if "mhall ".toList.isPrefixOf cs then cmdHall true (String.ofList (cs.drop 6)) else
   match tokens line with
   | "hnf" :: args => cmdHnf args
   | "snf" :: args => cmdSnf args
   | "hnfcheck" :: args => cmdHnfCheck args
   | "snfcheck" :: args => cmdSnfCheck args
+  | [kind, arg] =>
+    if kind = "settings" then
+      (if arg = "spglib" then natsToString Moyo.Generated.spglibHallNumbers.toList
+       else if arg = "standard" then natsToString Moyo.Generated.standardHallNumbers.toList else "bad-op")
+    else cmdEntry kind arg
   | _ => "bad-op"
 
 partial def loop (hin : IO.FS.Stream) (hout : IO.FS.Stream) : IO Unit := do
